@@ -84,6 +84,12 @@ PROPS = {
         'Trusted: the accessor added under EVENTPP_VERIF sets the counter consistently (forward only, every existing generation stays <= the counter).',
         'Each evaluation is one seeded program as in C02/C10 on CallbackList with warp(k) operations at top level and inside callback scripts. Non-trivial = the plan contains a warp; distinct = distinct plan hashes.'),
 
+    'C04': seq_prop('seq_disp', [st('c04-g++', 'seq_disp', 'c04', 300000, 6000000), st('c04-clang++', 'seq_disp_clang', 'c04', 300000, 6000000)],
+        'seeded dispatcher histories over a key-type / map / prototype / ArgumentPassingMode / listener-parameter / value-category matrix against a per-event list model, the same seeds executed by a g++ build and a clang++ build (the two compilers evaluate dispatch()\'s argument expressions in opposite orders)',
+        'Seeded search over histories of per-event listener management and dispatches for seven instantiations (int, enum class, std::string taken by value, user key with < only, user key with colliding hash and ==, getEvent policy on a field, explicit std::map policy), with listeners whose parameter types differ from the prototype or that move from a by-value parameter, and arguments supplied as lvalues, temporaries and moved locals, in both argument-passing forms. Every listener call is compared with the model when it happens (which listener, in which order, with which argument values).',
+        'No schedule or fault in this property; the only non-input dimension is the unspecified evaluation order, which the simulator cannot control and therefore samples with the two compilers present. Trusted: the per-event list model.',
+        'Each evaluation is one seeded history of 8-35 operations on one of seven EventDispatcher instantiations, run in a g++ build and in a clang++ build. Non-trivial = contains a dispatch; distinct = distinct plan hashes.',
+        assumptions=['rvalue-reference prototypes do not compile with the library and are not generated', 'only the compilers and the standard library installed here (g++ 12, clang++ 14, libstdc++) can be sampled']),
     'C05': seq_prop('seq_queue', [st('c05', 'seq_queue', 'c05', 300000, 6000000)],
         'seeded queue histories incl. operations issued from listeners and predicates, executed in lockstep with a FIFO queue model (exactly-once, order, argument values, every boolean result)',
         'Seeded search over single-threaded histories of enqueue (three argument forms, caller lvalues mutated afterwards), process, processOne, processIf, processUntil (mask predicates, predicates without arguments, predicates and listeners carrying scripts), peekEvent, takeEvent (+dispatch), clearEvents, emptyQueue and listener changes. Every listener and predicate call the real code makes is compared, when it happens, with the reference queue model; contents and the front event are compared after every step.',
